@@ -16,7 +16,7 @@ from pyvc.values import (B, I, NONE, Obj, VBool, VBytes, VExc, VFunc, VInt, VNon
 from . import blobmodel
 from . import fsmodel as M
 from .common import (ConflictError, KeyError_, OSError_, POSKeyError, ReadOnlyError,
-                     StorageTransactionError, TypeError_, ValueError_, inst)
+                     StorageTransactionError, TypeError_, UndoError, ValueError_, inst)
 from .fs_format import b8_eq_num, field_eq, sel_bytes, slice_is
 from .fs_load import bend_axioms, bend_fn, ghost_of
 from .fsmodel import be, rec, txn
@@ -1350,3 +1350,147 @@ class TpcFinish(WriteSpec):
 
 
 SPECS += [NewOid, TpcBegin, TpcAbort, TpcFinish]
+
+
+# ======================================================================================
+# restore (copyTransactionsFrom / recovery write path)
+# ======================================================================================
+class Restore(WriteSpec):
+    """FileStorage.restore: stages exactly one record (oid, the GIVEN serial, prev = current committed record,
+    tloc = transaction start) holding the data, or - when the hinted transaction holds an identical record - a back
+    pointer to it, or a zero pointer for an un-creation; and the oid counter covers the restored oid AS SOON AS the
+    call returns (C20: an allocation made before the vote must not hand the id out again).
+    ASSUMED at the call sites: _txn_find(tid, 0) returns the position of that transaction or raises UndoError;
+    _data_find returns 0 or a record position (its own contract: contracts/recover.py)."""
+    func = 'ZODB.FileStorage.FileStorage:FileStorage.restore'
+    props = ('C17', 'C20')
+    cases = ('data', 'uncreate', 'data-with-hint', 'other', 'same-readonly')
+    assumptions = WriteSpec.assumptions + (
+        'A-TXNFIND (restore): _txn_find(tid, 0) returns the position of the transaction with that tid or raises '
+        'UndoError; _data_find returns 0 or the position of a record (hooked at the call site)',)
+
+    def setup(self, c, case=None):
+        h, t = self.mk(c, 'other' if case == 'other' else 'same', read_only=(case == 'same-readonly'))
+        data = NONE if case == 'uncreate' else c.fresh_barr('data')
+        hint = c.fresh_bytes(8, 'prev_txn') if case == 'data-with-hint' else NONE
+        return {'self': h.self, 'oid': c.fresh_bytes(8, 'oid'), 'serial': c.fresh_bytes(8, 'serial'),
+                'data': data, 'version': VStr(''), 'prev_txn': hint, 'transaction': t}
+
+    def requires(self, c, E):
+        h = ghost_of(c, E['self'])
+        idx = c.obj(h.index).f
+        out = M.RI_chain(h.F, h.g, idx['dom'], idx['val'], h.pos.t) + txn_facts(c, h)
+        if isinstance(E['data'], VBytes):
+            out.append(('data-nonempty', z3.And(E['data'].length() > 0, E['data'].length() < M.MAXPOS)))
+        return out
+
+    def hooks(self, c):
+        hk = WriteSpec.hooks(self, c)
+
+        def txn_find(cc, args, kwargs, node):
+            if cc.choose([True, True], 'hinted-transaction-found') == 1:
+                cc.event('hint-missing')
+                raise RaiseSig(VExc(UndoError))
+            p = cc.fresh_int('prev_txn_pos')
+            cc.assume(z3.And(p.t >= 4, p.t < M.MAXPOS))
+            return p
+
+        def data_find(cc, args, kwargs, node):
+            p = cc.fresh_int('prev_pos')
+            cc.assume(z3.And(p.t >= 0, p.t < M.MAXPOS))
+            cc.ghost['restore_prev_pos'] = p.t
+            return p
+        hk['call:ZODB.FileStorage.FileStorage:FileStorage._txn_find'] = txn_find
+        hk['call:ZODB.FileStorage.FileStorage:FileStorage._data_find'] = data_find
+        return hk
+
+    def modifies(self, c, E):
+        h = ghost_of(c, E['self'])
+        return {(h.tfile.id, 'arr'), (h.tfile.id, 'size'), (h.tfile.id, 'pos'),
+                (h.tfile.id, 'dirty'), (h.tfile.id, 'unsynced'),
+                (h.tindex.id, 'dom'), (h.tindex.id, 'val'), (h.self.id, '_oid'), (h.file.id, 'pos')}
+
+    def outcomes(self, c, E):
+        h = ghost_of(c, E['self'])
+        S = c.obj(h.self).f
+        ro = S['_is_read_only'].t
+        same = E['transaction'].t == S['_transaction'].t
+        idx = c.obj(h.index).f
+        o = bytes_num(c, E['oid'])
+        has = z3.Select(idx['dom'], o)
+        old_p = z3.If(has, z3.Select(idx['val'], o), 0)
+        t0 = c.obj(h.tfile).f['pos']
+        tf_old = c.obj(h.tfile).f['arr']
+        here = h.pos.t + t0 + h.thl.t
+        oldoid = bytes_num(c, S['_oid'])
+        data = E['data']
+
+        def oid_post(c, E):
+            cur = c.obj(h.self).f['_oid']
+            return [('oid-counter-covers-the-restored-oid-at-once',
+                     b8_eq_num(c, cur, z3.If(o > oldoid, o, oldoid)))]
+
+        def effect(c, E, res):
+            tf = c.obj(h.tfile).f
+            ti, ti0 = c.obj(h.tindex).f, E.old[h.tindex.id]
+            r = rec(tf['arr'], t0)
+            pp = c.ghost.get('restore_prev_pos')
+            pointer = z3.BoolVal(True) if isinstance(data, VNone) else (
+                (pp != 0) if pp is not None else z3.BoolVal(False))
+            target = pp if pp is not None else z3.IntVal(0)
+            out = [
+                ('record.oid', r['oid'] == o),
+                ('record.tid-is-the-given-serial', r['tid'] == bytes_num(c, E['serial'])),
+                ('record.prev-is-current-committed-record', r['prev'] == old_p),
+                ('record.tloc-is-transaction-start', r['tloc'] == h.pos.t),
+                ('record.vlen-zero', r['vlen'] == 0),
+                ('staged-prefix-unchanged', All(['byte'], lambda k: z3.Implies(
+                    z3.And(k >= 0, k < t0), z3.Select(tf['arr'], k) == z3.Select(tf_old, k)))),
+                ('tfile.size', tf['size'] >= tf['pos']),
+                ('tindex.entry', z3.And(z3.Select(ti['dom'], o), z3.Select(ti['val'], o) == here)),
+                ('tindex.others-unchanged', All(['oid'], lambda q: z3.Implies(
+                    q != o, z3.And(z3.Select(ti['dom'], q) == z3.Select(ti0['dom'], q),
+                                   z3.Select(ti['val'], q) == z3.Select(ti0['val'], q))))),
+            ]
+            if isinstance(data, VBytes):
+                darr, doff, dlen = one_seg(data)
+                out += [
+                    ('record.plen', r['plen'] == z3.If(pointer, 0, dlen)),
+                    ('record.data-or-pointer-to-the-identical-record', z3.If(
+                        pointer, be(tf['arr'], t0 + 42, 8) == target, z3.BoolVal(True))),
+                    ('record.data', All(['byte'], lambda k: z3.Implies(
+                        z3.And(z3.Not(pointer), k >= 0, k < dlen),
+                        z3.Select(tf['arr'], t0 + 42 + k) == z3.Select(darr, doff + k)))),
+                    ('tfile.pos', tf['pos'] == t0 + 42 + z3.If(pointer, 8, dlen)),
+                ]
+            else:
+                out += [('record.plen-zero', r['plen'] == 0),
+                        ('record.zero-pointer-for-an-un-creation', be(tf['arr'], t0 + 42, 8) == 0),
+                        ('tfile.pos', tf['pos'] == t0 + 50)]
+            return out + oid_post(c, E) + lock_balanced(c, E, h)
+
+        def nothing_staged(c, E, res):
+            tf, tf0 = c.obj(h.tfile).f, E.old[h.tfile.id]
+            ti, ti0 = c.obj(h.tindex).f, E.old[h.tindex.id]
+            return [('nothing-staged', z3.And(tf['arr'] == tf0['arr'], tf['pos'] == tf0['pos'],
+                                              tf['size'] == tf0['size'], ti['dom'] == ti0['dom'],
+                                              ti['val'] == ti0['val']))] + lock_balanced(c, E, h)
+
+        def untouched(c, E, res):
+            return nothing_staged(c, E, res) + [
+                ('oid-counter-unchanged', contract.same_value(c, E.old[h.self.id]['_oid'],
+                                                              c.obj(h.self).f['_oid']))]
+        live = z3.And(z3.Not(ro), same)
+        return [
+            Outcome('read-only', 'raise', ReadOnlyError, guard=ro, post=untouched),
+            Outcome('wrong-transaction', 'raise', StorageTransactionError,
+                    guard=z3.And(z3.Not(ro), z3.Not(same)), post=untouched),
+            Outcome('restored', guard=live, post=effect),
+            Outcome('hinted-transaction-missing', 'raise', UndoError, guard=live,
+                    post=lambda c, E, r: nothing_staged(c, E, r) + [
+                        ('only-when-the-hint-names-no-transaction',
+                         any(e[0] == 'hint-missing' for e in c.events))]),
+        ]
+
+
+SPECS.append(Restore)
